@@ -31,7 +31,8 @@ func (k Keeper) DivvyingTips(ctx context.Context, reporterAddr sdk.AccAddress, r
 	}
 
 	// selector's commission = reporter's commission rate * reward
-	commission := reward.Mul(reporter.CommissionRate)
+	// truncating arithmetic throughout: the credits of one reward must never add up to more than the reward
+	commission := reward.MulTruncate(reporter.CommissionRate)
 	// Calculate net reward
 	netReward := reward.Sub(commission)
 
@@ -44,7 +45,7 @@ func (k Keeper) DivvyingTips(ctx context.Context, reporterAddr sdk.AccAddress, r
 		// delegator share = netReward * selector's share / total shares
 		delAmountDec := del.Amount.ToLegacyDec()
 		delTotalDec := delAddrs.Total.ToLegacyDec()
-		delegatorShare := netReward.Mul(delAmountDec).Quo(delTotalDec)
+		delegatorShare := netReward.MulTruncate(delAmountDec).QuoTruncate(delTotalDec)
 
 		// get selector's previous tips
 		oldTips, err := k.SelectorTips.Get(ctx, del.DelegatorAddress)
